@@ -37,6 +37,9 @@ NORMAL_BOUND = 30.0                               # normal time to exit is 0.02 
 SLOW_BOUND = 30.0 + 45.0
 
 
+UNREACHABLE = set()      # dead-thread session states that can no longer be produced through the protocol (handlers repaired)
+
+
 def model_state(state):
     if state in ("dead", "dead_poisoned", "dead_port"):
         return {"dead": "dead_poisoned" if state == "dead_poisoned" else "dead", "attached": False, "machine": "none"}
@@ -108,7 +111,7 @@ class Session:
         self.pid = self.lsp.p.pid
 
     def _await_thread_death(self):
-        for _ in range(200):
+        for _ in range(100):
             if "panicked at" in self.lsp.stderr_tail(4000):
                 return
             time.sleep(0.02)
@@ -231,6 +234,9 @@ def run_scenario(chk, mos, model, state, script, rng, workdir, jitter, dist, tag
     if "outcomes" not in m:
         chk.tie_break("model", "mosmodel_c20 failed: %s" % m, {"state": state, "script": script})
         return
+    if state in UNREACHABLE:
+        dist["dead_state_unreachable"] = dist.get("dead_state_unreachable", 0) + 1
+        return
     for attempt in range(3):
         sess = None
         try:
@@ -239,6 +245,7 @@ def run_scenario(chk, mos, model, state, script, rng, workdir, jitter, dist, tag
                 # the request handlers that used to kill the debug thread have been repaired: this state cannot be produced
                 # through the protocol any more (the model still covers it)
                 dist["dead_state_unreachable"] = dist.get("dead_state_unreachable", 0) + 1
+                UNREACHABLE.add(state)      # established once per run; do not wait for the panic again
                 return
             if sess.setup_error:
                 if attempt < 2:
